@@ -54,11 +54,12 @@ func TestC12Consumers(t *testing.T) {
 			M = 2*queue + 2 + rapid.IntRange(0, 40).Draw(rt, "extra")
 		}
 		reattach := rapid.Bool().Draw(rt, "reattach")
+		disconnect := rapid.Bool().Draw(rt, "disconnectHostile")
 		var names []string
 		for _, b := range behaviours {
 			names = append(names, consNames[b])
 		}
-		desc := fmt.Sprintf("%s H=%d hostile=[%s] puts=%d reattach=%v", backNames[kind], H, strings.Join(names, ","), M, reattach)
+		desc := fmt.Sprintf("%s H=%d hostile=[%s] puts=%d reattach=%v disconnect=%v", backNames[kind], H, strings.Join(names, ","), M, reattach, disconnect)
 		// consumers attach through the real SyncChain in live mode (start round = head): free-running streams with scripted Send
 		type cons struct {
 			beh    int
@@ -202,6 +203,25 @@ func TestC12Consumers(t *testing.T) {
 			if i%50 == 0 {
 				if _, ok := timed("last", func() error { _, err := r.cbs.Last(context.Background()); return err }); !ok {
 					fail("C12/read-blocked-by-consumer", "Last() did not return while a consumer was stalled")
+					return
+				}
+			}
+			if disconnect && i == (2*M)/3 && len(behaviours) > 0 {
+				// the hostile clients go away (their contexts end) while their queues may be full: tearing them down must not wedge
+				// the store, and a new client must be able to attach and be served afterwards
+				for _, c := range all[:len(behaviours)] {
+					c.cancel()
+				}
+				if _, ok := timed("last-after-disconnect", func() error { _, err := r.cbs.Last(context.Background()); return err }); !ok {
+					fail("C12/read-blocked-by-consumer", "Last() blocked after the stalled consumers disconnected")
+					return
+				}
+				// a new client can attach (AddCallback needs the store's write lock) within the bound
+				if _, ok := timed("attach-after-disconnect", func() error {
+					r.cbs.AddCallback("late-internal", func(*common.Beacon, bool) {})
+					return nil
+				}); !ok {
+					fail("C12/attach-blocked-after-disconnect", "AddCallback blocked after the stalled consumers disconnected")
 					return
 				}
 			}
